@@ -6,8 +6,8 @@ import Hive.Model.WorkerPoolSched
 /-!
 # C16 — WorkerPool conserves tasks and always shuts down
 
-Property theorems only.  Model: `Hive/Model/WorkerPool.lean` (runtime/workerpool/workerpool.go with the
-repaired `Start`, task.go; the parts of syncutils.Counter / syncutils.Stack the pool uses).  Every
+Property theorems only.  Model: `Hive/Model/WorkerPool.lean` (runtime/workerpool/workerpool.go as repaired by
+b9bfa1a, a0dbad3, 9b2668a, 1119368; task.go; the parts of syncutils.Counter / syncutils.Stack the pool uses).  Every
 theorem quantifies over the worker count `p.W`, cancel-on-shutdown `p.cancel`, any number of client
 threads with arbitrary scripts of Submit / Shutdown / Start / ShutdownComplete.Wait / WaitIsZero calls,
 task bodies that submit further tasks to any depth, and every interleaving (`Reach`).
@@ -121,63 +121,49 @@ theorem C16_no_run_after_shutdown_complete (p : Params) (ts : List Thr) (h0 : In
     exact no_work_while_completed p.cancel _ l2 rfl hok hno
 
 
-/-! ### termination: the full statement, and the schedules on which the code violates it -/
+/-! ### termination -/
 
-/-- **C16, termination and quiescence, full statement** (NOT satisfied by the code, see the witnesses
-below; the proved part is `C16_shutdown_terminates_partial`).  In every reachable configuration in
-which nobody can move any more: the pending counter is zero (so every accepted task has been run or
-cancelled), every client call has returned — except `ShutdownComplete.Wait()` calls on a pool that is
-running again — and a pool that is not running has no live goroutine (`ShutdownComplete` is at zero). -/
+/-- **C16, termination and quiescence, full statement.**  In every reachable configuration in which
+nobody can move any more: the pending counter is zero (so every accepted task has been run or
+cancelled), every client call has returned — except `ShutdownComplete.Wait()` calls (directly, or
+`Start`'s wait for the workers of the previous run) on a pool that is running again — and a pool that
+is not running has no live goroutine (`ShutdownComplete` is at zero), i.e. every
+`Shutdown(); ShutdownComplete.Wait()` has terminated. -/
 def C16_statement : Prop :=
-  ∀ (p : Params) (ts : List Thr) (c : Cfg St Thr), 0 < p.W → p.oldStart = false → Initial ts → Thr.runner ∈ ts →
+  ∀ (p : Params) (ts : List Thr) (c : Cfg St Thr), 0 < p.W → Initial ts → Thr.runner ∈ ts →
     Reach (sys p) (St.init, ts) c → Stuck (sys p) c →
       c.1.pending = 0 ∧
       (∀ t ∈ c.2, t.finished = true ∨ (t.atWaitComplete = true ∧ c.1.running = true)) ∧
       (c.1.running = false → wg c.1 = 0)
 
-/-- **C16, termination and quiescence — the part the code satisfies.**  For every worker count ≥ 1,
-cancel-on-shutdown on or off, any number of client threads with arbitrary scripts (Submit of tasks that
-submit tasks, Shutdown, Start, ShutdownComplete.Wait, WaitIsZero), and every schedule on which
-* no `Submit` was between its running-check and its push when a `Shutdown` switched the pool off
-  (`raced = false`),
-* no `Shutdown` broadcast `elementAdded` while the dispatcher was between `PopOrWait`'s wait condition
-  and its `Wait` (`lost = false`),
-* no `Start` took the pool lock of a stopped pool whose previous shutdown had not completed
-  (`startRace = false`; with the repaired `Start` this needs a second, concurrent `Start`/`Shutdown`),
-a configuration in which nobody can move is a good one: the pending counter is zero — hence, by
-`C16_conservation`, every accepted task was run or cancelled —, every call has returned except waits
-for the completion of a shutdown of a pool that is running (again), and a stopped pool has no live
-goroutine, i.e. every `Shutdown(); ShutdownComplete.Wait()` has terminated.
-
-Missing for the full `C16_statement`: exactly the three excluded schedules.  The first two are
-violated by the code (`C16_submit_window_*_witness`, `C16_signal_lost_witness`, replayed on the real
-code); for the third no replay on the real code exists (no hook between `Start`'s wait and its
-`Lock`), so it is not claimed as a defect. -/
-theorem C16_shutdown_terminates_partial (p : Params) (ts : List Thr) (c : Cfg St Thr) (hW : 0 < p.W)
-    (h0 : Initial ts) (hrun : Thr.runner ∈ ts) (hr : Reach (sys p) (St.init, ts) c)
-    (hraced : c.1.raced = false) (hlost : c.1.lost = false) (hstart : c.1.startRace = false)
-    (hstuck : Stuck (sys p) c) :
-    c.1.pending = 0 ∧
-    (∀ t ∈ c.2, t.finished = true ∨ (t.atWaitComplete = true ∧ c.1.running = true)) ∧
-    (c.1.running = false → wg c.1 = 0) := by
+/-- **C16, termination (full strength; the code as repaired by a0dbad3, 9b2668a, 1119368).**  For every
+worker count ≥ 1, cancel-on-shutdown on or off, any number of client threads with arbitrary scripts
+(Submit of tasks that submit tasks, Shutdown, Start, ShutdownComplete.Wait, WaitIsZero) and **every**
+schedule — including a `Submit` between its counted running-check and its push when `Shutdown` switches
+the pool off, a `Shutdown` while the dispatcher is between `PopOrWait`'s wait condition and its `Wait`,
+and concurrent `Start`/`Shutdown` calls — a configuration in which nobody can move is a good one.
+Proof: invariants `SInv`, `LInv`, `TI`, `OS` over all reachable configurations and the analysis of a stuck
+configuration (`Hive/Proofs/WorkerPoolTerm.lean`).  The old code violated this on three kinds of
+schedules: `Hive/Props/C16Old.lean`. -/
+theorem C16_shutdown_terminates : C16_statement := by
+  intro p ts c hW h0 hrun hr hstuck
   obtain ⟨s, ts'⟩ := c
-  exact stuck_good hW (finv_reach p hW ts h0 hrun (s, ts') hr) hraced hlost hstart hstuck
+  exact stuck_good hW (finv_reach p hW ts h0 hrun (s, ts') hr) hstuck
 
-/-- Under the same hypotheses every accepted task has finished at quiescence: the number of tasks whose
-counter increase happened equals the number of tasks marked done (run to the end, or cancelled) — with
-`C16_conservation` (at most once, never both) this is "run or cancelled exactly once". -/
-theorem C16_exactly_once_partial (p : Params) (ts : List Thr) (c : Cfg St Thr) (hW : 0 < p.W)
+/-- At quiescence every accepted task has finished: the number of tasks whose counter increase happened
+equals the number of tasks marked done (run to the end, or cancelled) — with `C16_conservation` (at most
+once, never both) this is "run or cancelled exactly once". -/
+theorem C16_exactly_once (p : Params) (ts : List Thr) (c : Cfg St Thr) (hW : 0 < p.W)
     (h0 : Initial ts) (hrun : Thr.runner ∈ ts) (hr : Reach (sys p) (St.init, ts) c)
-    (hraced : c.1.raced = false) (hlost : c.1.lost = false) (hstart : c.1.startRace = false)
     (hstuck : Stuck (sys p) c) : cnt fUp c.1 = cnt fDn c.1 := by
-  have h1 := (C16_shutdown_terminates_partial p ts c hW h0 hrun hr hraced hlost hstart hstuck).1
+  have h1 := (C16_shutdown_terminates p ts c hW h0 hrun hr hstuck).1
   have h2 := (C16_conservation p ts h0 c hr).2.1
   omega
 
-/-- Sanity of the model's `Start`: in every reachable configuration in which `ShutdownComplete` is at zero
-(the guard of the spawn step) there is no dispatcher left and the dispatch channel is empty, so the
-spawn never overwrites a live dispatcher (the model keeps a single dispatcher slot) — the ghost flag
-`broken` is never raised. -/
+/-- Sanity of the model's `Start`: in every reachable configuration in which no worker is alive (the
+guard of the spawn) there is no dispatcher left and the dispatch channel is empty, so the spawn never
+overwrites a live dispatcher (the model keeps a single dispatcher slot) — the ghost flag `broken` is
+never raised. -/
 theorem C16_start_spawns_clean (p : Params) (ts : List Thr) (c : Cfg St Thr) (hW : 0 < p.W)
     (h0 : Initial ts) (hrun : Thr.runner ∈ ts) (hr : Reach (sys p) (St.init, ts) c) (hz : wg c.1 = 0) :
     c.1.disp = .none ∧ chanIds c.1 = [] ∧ (spawn p c.1).broken = c.1.broken := by
@@ -192,87 +178,56 @@ theorem stuckB_sound (p : Params) (c : Cfg St Thr) (h : stuckB p c = true) : Stu
 
 def clientsDone (c : Cfg St Thr) : Bool := c.2.all Thr.finished
 
-def scWindowLostSched : List (Nat × Nat) :=
-  [(0, 0), (0, 0), (0, 0), (0, 0), (0, 0), (0, 0), (3, 0), (3, 0), (3, 0), (3, 0), (1, 0), (1, 0), (2, 0), (2, 0), (2, 0), (2, 0), (2, 0), (2, 0), (3, 0), (3, 0), (3, 0), (3, 0), (3, 0), (3, 0), (3, 0), (3, 0), (2, 0), (2, 0), (1, 0), (1, 0), (1, 0)]
+def scWindowSched : List (Nat × Nat) :=
+  [(0, 0), (0, 0), (3, 0), (3, 0), (3, 0), (3, 0), (1, 0), (1, 0), (2, 0), (2, 0), (2, 0), (2, 0), (2, 0),
+   (2, 0), (3, 0), (3, 0), (3, 0), (3, 0), (3, 0), (1, 0), (1, 0), (3, 0), (3, 0), (3, 1), (3, 1), (3, 1),
+   (3, 1), (3, 0), (3, 0), (3, 0), (3, 0), (2, 0), (2, 0)]
 
-def scWindowHangSched : List (Nat × Nat) :=
-  [(0, 0), (0, 0), (0, 0), (0, 0), (0, 0), (0, 0), (1, 0), (1, 0), (1, 0), (1, 0), (1, 0), (4, 0), (4, 0), (4, 0), (4, 1), (4, 1), (2, 0), (2, 0), (4, 0), (4, 0), (4, 0), (4, 0), (4, 0), (3, 0), (3, 0), (3, 0), (3, 0), (3, 0), (3, 0), (4, 0), (4, 0), (4, 0), (4, 0), (2, 0), (2, 0), (2, 0), (4, 0), (4, 0), (3, 0)]
+def scWindowBusySched : List (Nat × Nat) :=
+  [(0, 0), (0, 0), (1, 0), (1, 0), (1, 0), (1, 0), (4, 0), (4, 0), (4, 0), (4, 1), (4, 1), (2, 0), (2, 0),
+   (4, 0), (4, 0), (4, 0), (4, 0), (3, 0), (3, 0), (3, 0), (3, 0), (3, 0), (3, 0), (4, 0), (4, 0), (4, 0),
+   (4, 0), (2, 0), (2, 0), (4, 0), (4, 0), (4, 1), (4, 1), (4, 1), (4, 1), (4, 1), (4, 1), (4, 1), (4, 0),
+   (4, 0), (4, 0), (4, 0), (3, 0), (3, 0)]
 
-def scGapLostSched : List (Nat × Nat) :=
-  [(0, 0), (0, 0), (0, 0), (0, 0), (0, 0), (0, 0), (2, 0), (2, 0), (2, 0), (1, 0), (1, 0), (1, 0), (1, 0), (1, 0), (1, 0), (2, 0), (2, 0), (1, 0)]
+def scGapSched : List (Nat × Nat) :=
+  [(0, 0), (0, 0), (2, 0), (2, 0), (2, 0), (1, 0), (1, 0), (1, 0), (1, 0), (1, 0), (2, 0), (1, 0), (2, 0),
+   (2, 0), (2, 0), (2, 0), (2, 0), (2, 0), (2, 0), (2, 0), (1, 0), (1, 0)]
 
 def scRestartSched : List (Nat × Nat) :=
-  [(0, 0), (0, 0), (0, 0), (0, 0), (0, 0), (0, 0), (1, 0), (1, 0), (1, 0), (1, 0), (0, 0), (0, 0), (0, 0), (0, 0), (0, 0), (0, 0), (0, 0), (0, 0), (1, 0), (1, 0), (1, 0), (1, 0), (1, 0), (1, 0), (1, 0), (1, 0), (0, 0), (0, 0), (0, 0), (0, 0), (0, 0), (0, 0), (0, 0), (0, 0), (0, 0), (1, 0), (1, 0), (1, 0), (1, 1), (1, 1), (1, 1), (1, 1), (0, 0), (0, 0), (1, 0), (1, 0), (1, 0), (1, 0), (0, 0), (0, 0), (0, 0), (0, 0), (0, 0), (0, 0), (1, 0), (1, 0), (1, 0), (1, 0), (1, 0), (1, 0), (1, 0), (1, 0), (0, 0), (0, 0)]
+  [(0, 0), (0, 0), (1, 0), (1, 0), (1, 0), (1, 0), (0, 0), (0, 0), (0, 0), (0, 0), (0, 0), (0, 0), (0, 0),
+   (0, 0), (1, 0), (1, 0), (1, 0), (1, 0), (1, 0), (1, 0), (1, 0), (1, 0), (0, 0), (0, 0), (0, 0), (0, 0),
+   (0, 0), (0, 0), (1, 0), (1, 0), (1, 0), (1, 1), (1, 1), (1, 1), (1, 1), (1, 1), (0, 0), (0, 0), (1, 0),
+   (1, 0), (1, 0), (1, 0), (0, 0), (0, 0), (0, 0), (0, 0), (0, 0), (0, 0), (1, 0), (1, 0), (1, 0), (1, 0),
+   (1, 0), (1, 0), (1, 0), (1, 0), (0, 0), (0, 0)]
 
-def scOldStartSched : List (Nat × Nat) :=
-  [(0, 0), (0, 0), (0, 0), (0, 0), (0, 0), (1, 0), (1, 0), (1, 0), (1, 0), (0, 0), (0, 0), (0, 0), (0, 0), (0, 0), (0, 0), (0, 0), (0, 0), (0, 0), (1, 0), (1, 0)]
+def scStartRaceSched : List (Nat × Nat) :=
+  [(0, 0), (0, 0), (0, 0), (0, 0), (0, 0), (0, 0), (3, 0), (3, 0), (3, 0), (3, 1), (3, 1), (3, 1), (3, 1),
+   (3, 1), (3, 0), (3, 0), (3, 0), (3, 0), (0, 0), (0, 0), (0, 0), (0, 0), (0, 0), (0, 0), (1, 0), (1, 0),
+   (3, 0), (3, 0), (3, 0), (3, 0), (3, 0), (3, 0), (3, 0), (3, 0), (0, 0), (0, 0), (0, 0), (0, 0), (0, 0),
+   (0, 0), (0, 0), (0, 0), (3, 0), (3, 0), (3, 0), (3, 1), (3, 1), (3, 1), (3, 1), (3, 1), (3, 0), (3, 0),
+   (3, 0), (3, 0), (0, 0), (0, 0), (0, 0), (0, 0), (0, 0), (0, 0), (3, 0), (3, 0), (3, 0), (3, 0), (3, 0),
+   (3, 0), (3, 0), (3, 0), (1, 0), (1, 0), (3, 0), (3, 0), (3, 0), (3, 0), (2, 0), (2, 0), (2, 0), (2, 0),
+   (2, 0), (2, 0), (3, 0), (3, 0), (3, 0), (3, 0), (3, 0), (3, 0), (3, 0), (3, 0), (2, 0), (2, 0)]
 
-theorem C16_sched_window_lost_example : scWindowLost.sched = scWindowLostSched := by decide
-theorem C16_sched_window_hang_example : scWindowHang.sched = scWindowHangSched := by decide
-theorem C16_sched_gap_lost_example : scGapLost.sched = scGapLostSched := by decide
+theorem C16_sched_window_example : scWindow.sched = scWindowSched := by decide
+theorem C16_sched_window_busy_example : scWindowBusy.sched = scWindowBusySched := by decide
+theorem C16_sched_gap_example : scGap.sched = scGapSched := by decide
 theorem C16_sched_restart_example : scRestart.sched = scRestartSched := by decide
-theorem C16_sched_old_start_example : scOldStart.sched = scOldStartSched := by decide
+theorem C16_sched_start_race_example : scStartRace.sched = scStartRaceSched := by decide
 
-/-- **Witness (Submit window, lost task).**  One worker; a `Submit` passes the running check, the pool
-is shut down completely, then the `Submit` increases the counter and pushes: nobody can move, every
-call has returned, `ShutdownComplete` is at zero — and the pending counter is 1 for ever with the
-task still queued.  Replayed on the real code through the `verif` hook in `Submit`. -/
-theorem C16_submit_window_lost_witness :
-    let c := runSched (sys scWindowLost.p) scWindowLost.init scWindowLostSched
-    stuckB scWindowLost.p c = true ∧ clientsDone c = true ∧ c.1.running = false ∧ wg c.1 = 0 ∧
-      c.1.pending = 1 ∧ (queuedIds c.1).length = 1 ∧ c.1.raced = true ∧ c.1.lost = false := by
-  decide
-
-/-- **Witness (Submit window, shutdown never completes).**  As above, but a running task keeps the
-dispatcher in `WaitIsZero` when the late push arrives: the dispatcher waits for a counter that cannot
-reach zero, the worker waits for the channel to be closed, `ShutdownComplete.Wait()` never returns. -/
-theorem C16_submit_window_hang_witness :
-    let c := runSched (sys scWindowHang.p) scWindowHang.init scWindowHangSched
-    stuckB scWindowHang.p c = true ∧ c.1.running = false ∧ wg c.1 = 1 ∧ c.1.pending = 1 ∧
-      c.1.disp = .waitZero ∧ (c.2.any Thr.atWaitComplete) = true ∧ c.1.raced = true ∧ c.1.lost = false := by
-  decide
-
-/-- **Witness (lost wake-up).**  The dispatcher evaluated `IsRunning() = true` inside `PopOrWait` and
-has not yet started to wait when `Shutdown` broadcasts `elementAdded` (without the stack mutex): the
-broadcast is lost, the dispatcher sleeps for ever, `ShutdownComplete.Wait()` never returns.  No
-`Submit` is involved. -/
-theorem C16_signal_lost_witness :
-    let c := runSched (sys scGapLost.p) scGapLost.init scGapLostSched
-    stuckB scGapLost.p c = true ∧ c.1.running = false ∧ wg c.1 = 1 ∧ c.1.pending = 0 ∧
-      c.1.disp = .waiting ∧ c.1.dwait = true ∧ (c.2.any Thr.atWaitComplete) = true ∧
-      c.1.raced = false ∧ c.1.lost = true := by
-  decide
-
-/-- The code does not satisfy the full statement. -/
-theorem C16_statement_fails_witness : ¬ C16_statement := by
-  intro h
-  have hw := C16_submit_window_lost_witness
-  simp only at hw
-  have := h scWindowLost.p (mkClients scWindowLost.scripts)
-    (runSched (sys scWindowLost.p) scWindowLost.init scWindowLostSched) (by decide) rfl (by intro t ht; revert t; decide) (by simp [mkClients])
-    (runSched_reach _ _ _) (stuckB_sound _ _ hw.1)
-  rw [hw.2.2.2.2.1] at this
-  exact absurd this.1 (by decide)
-
-/-- **Regression witness for the repaired defect**: with `Start` as it was (waiting for
-`ShutdownComplete` while holding the pool lock) `Start(); Shutdown(); Start()` by a single caller
-deadlocks — the dispatcher cannot read `isRunning`. -/
-theorem C16_old_start_witness :
-    let c := runSched (sys scOldStart.p) scOldStart.init scOldStartSched
-    stuckB scOldStart.p c = true ∧ clientsDone c = false ∧ c.1.writer = true ∧ c.1.disp = .cond ∧ wg c.1 = 1 ∧
-      c.1.raced = false ∧ c.1.lost = false := by
-  decide
-
-/-- The same life cycle with the repaired `Start`, followed by a task and a second shutdown, runs to
-a clean end: non-vacuity of the model (tasks are accepted, dispatched, run, the pool restarts) and of
-the hypotheses of `C16_shutdown_terminates_partial` (a reachable stuck configuration with
-`raced = lost = startRace = false`). -/
-theorem C16_restart_example :
-    let c := runSched (sys scRestart.p) scRestart.init scRestartSched
-    stuckB scRestart.p c = true ∧ clientsDone c = true ∧ c.1.pending = 0 ∧ wg c.1 = 0 ∧ c.1.starts = 2 ∧
-      countPhase c.1 (· == .done) = 1 ∧ c.1.raced = false ∧ c.1.lost = false ∧ c.1.startRace = false ∧
-      c.1.broken = false ∧
-      traceOk scRestart.p.cancel c.1.log = true := by
+/-- The schedules on which the old code failed (Submit window; Submit window with a busy worker; PopOrWait
+gap; `Shutdown(); Start()` back to back; a `Start` overtaken by a restart and a second shutdown), run on
+the model of the repaired code: each ends in a stuck configuration with every call returned, counter
+zero, no live goroutine, every accepted task run once, and a trace accepted by the trace predicate.
+The same five schedules are forced on the real code through the `verif` hooks and must give the same
+outcome (`sched` requests of the driver).  Non-vacuity of the theorems above. -/
+theorem C16_forced_schedules_example :
+    ∀ sc ∈ [(scWindow, scWindowSched, 1), (scWindowBusy, scWindowBusySched, 2), (scGap, scGapSched, 0),
+            (scRestart, scRestartSched, 1), (scStartRace, scStartRaceSched, 2)],
+      let c := runSched (sys sc.1.p) sc.1.init sc.2.1
+      stuckB sc.1.p c = true ∧ clientsDone c = true ∧ c.1.pending = 0 ∧ wg c.1 = 0 ∧ c.1.running = false ∧
+        countPhase c.1 (· == .done) = sc.2.2 ∧ c.1.broken = false ∧ c.1.due = 0 ∧
+        traceOk sc.1.p.cancel c.1.log = true := by
   decide
 
 end Hive.WP
@@ -311,39 +266,54 @@ end Hive.WPG
 
 `Hive/Gen/C16_Skel.lean` is regenerated from runtime/workerpool and runtime/syncutils on every run; the
 model's atomic steps (Hive/Model/WorkerPool.lean) follow exactly these sequences of lock / channel /
-condition / WaitGroup operations.  A change of the code's synchronisation structure breaks these
+condition / WaitGroup / atomic operations.  A change of the code's synchronisation structure breaks these
 obligations even when no stress schedule hits the difference. -/
 namespace Hive.WP
 open Hive.Gen.C16Skel
 
 theorem C16_skeleton_WorkerPool_Start : skel_WorkerPool_Start =
-    ["call w.IsRunning", "if{", "call w.ShutdownComplete.Wait", "}if", "lock w.mutex",
-     "defer unlock w.mutex", "if{", "call w.ShutdownComplete.Wait", "helper startDispatcher",
-     "helper startWorkers", "}if", "return"] := by decide
+    ["for{", "call w.startIfStopped", "call w.ShutdownComplete.Wait", "}for", "return"] := by decide
+
+theorem C16_skeleton_WorkerPool_startIfStopped : skel_WorkerPool_startIfStopped =
+    ["lock w.mutex", "defer unlock w.mutex", "if{", "return", "}if", "call w.liveWorkers.Load", "if{",
+     "return", "}if", "helper startDispatcher", "helper startWorkers", "return"] := by decide
 
 theorem C16_skeleton_WorkerPool_Submit : skel_WorkerPool_Submit =
-    ["call w.IsRunning", "if{", "if{", "}if", "return", "}if", "call w.increasePendingTasks",
-     "call w.Queue.Push"] := by decide
+    ["call w.increasePendingTasksIfRunning", "if{", "if{", "}if", "return", "}if", "call w.Queue.Push"] := by decide
+
+theorem C16_skeleton_WorkerPool_increasePendingTasksIfRunning : skel_WorkerPool_increasePendingTasksIfRunning =
+    ["rlock w.mutex", "defer runlock w.mutex", "if{", "return", "}if", "call w.PendingTasksCounter.Increase",
+     "return"] := by decide
+
+theorem C16_skeleton_WorkerPool_decreasePendingTasks : skel_WorkerPool_decreasePendingTasks =
+    ["call w.PendingTasksCounter.Decrease", "if{", "call w.Queue.SignalShutdown", "}if"] := by decide
+
+theorem C16_skeleton_WorkerPool_hasWork : skel_WorkerPool_hasWork =
+    ["call w.IsRunning", "call w.PendingTasksCounter.Get", "return"] := by decide
 
 theorem C16_skeleton_WorkerPool_IsRunning : skel_WorkerPool_IsRunning =
     ["rlock w.mutex", "defer runlock w.mutex", "return"] := by decide
 
 theorem C16_skeleton_WorkerPool_Shutdown : skel_WorkerPool_Shutdown =
-    ["lock w.mutex", "defer unlock w.mutex", "if{", "for{", "send w.shutdownSignal", "}for",
-     "call w.Queue.SignalShutdown", "}if", "return"] := by decide
+    ["call w.stop", "if{", "call w.Queue.SignalShutdown", "}if", "return"] := by decide
+
+theorem C16_skeleton_WorkerPool_stop : skel_WorkerPool_stop =
+    ["lock w.mutex", "defer unlock w.mutex", "if{", "return", "}if", "for{", "send w.shutdownSignal", "}for",
+     "return"] := by decide
 
 theorem C16_skeleton_WorkerPool_dispatcher : skel_WorkerPool_dispatcher =
-    ["for{", "call w.IsRunning", "call w.Queue.Size", "call w.Queue.PopOrWait", "if{",
-     "send w.dispatcherChan", "}if", "}for", "call w.PendingTasksCounter.WaitIsZero", "close w.dispatcherChan"] := by decide
+    ["for{", "call w.hasWork", "call w.Queue.PopOrWait", "if{", "send w.dispatcherChan", "}if", "}for",
+     "close w.dispatcherChan"] := by decide
 
 theorem C16_skeleton_WorkerPool_startDispatcher : skel_WorkerPool_startDispatcher =
     ["go", "helper dispatcher"] := by decide
 
 theorem C16_skeleton_WorkerPool_startWorkers : skel_WorkerPool_startWorkers =
-    ["for{", "call w.ShutdownComplete.Add", "go", "helper worker", "}for"] := by decide
+    ["for{", "call w.ShutdownComplete.Add", "call w.liveWorkers.Add", "go", "helper worker", "}for"] := by decide
 
 theorem C16_skeleton_WorkerPool_worker : skel_WorkerPool_worker =
-    ["defer call w.ShutdownComplete.Done", "helper workerReadLoop", "helper handleShutdown"] := by decide
+    ["defer call w.liveWorkers.Add", "defer call w.ShutdownComplete.Done", "helper workerReadLoop",
+     "helper handleShutdown"] := by decide
 
 theorem C16_skeleton_WorkerPool_workerReadLoop : skel_WorkerPool_workerReadLoop =
     ["for{", "select{", "case recv w.shutdownSignal", "return", "default", "select{",
@@ -371,7 +341,7 @@ theorem C16_skeleton_Stack_Size : skel_Stack_Size =
     ["rlock b.mutex", "defer runlock b.mutex", "return"] := by decide
 
 theorem C16_skeleton_Stack_SignalShutdown : skel_Stack_SignalShutdown =
-    ["call b.elementAdded.Broadcast"] := by decide
+    ["lock b.mutex", "defer unlock b.mutex", "call b.elementAdded.Broadcast"] := by decide
 
 theorem C16_skeleton_Counter_Update : skel_Counter_Update =
     ["helper update", "if{", "call c.valueIncreasedCond.Broadcast", "}else{", "if{",
